@@ -76,6 +76,11 @@ uint8_t* h_unhex(const char* v, size_t* n);               /* malloc'ed exact siz
 long long h_ll(const char* v);
 int64_t* h_list(const char* v, size_t* n);                /* comma list, '-' empty */
 
+/* ---- allocation fault injection (alloc_wrap.c) ---- */
+void h_alloc_arm(long fail_at);   /* start counting requests; the fail_at-th (1-based) returns NULL; 0 = count only */
+long h_alloc_disarm(void);        /* stop; returns the number of requests seen */
+extern long h_alloc_fired;
+
 /* ---- component registry ---- */
 typedef void (*h_gen_fn)(hctx* h);
 typedef int (*h_replay_fn)(hctx* h, const h_line* l);     /* 1 if the op was handled */
